@@ -80,7 +80,7 @@ def ident(t):
     return (t.count, rec(t))
 
 
-def check_wf(t, tag, bad):
+def check_wf(t, tag, bad, id_rule=None):
     errs, nodes = wf.wf_graph(t)
     if errs:
         bad.append(f"{tag}: C01 monitor: " + "; ".join(errs[:2]))
@@ -88,7 +88,7 @@ def check_wf(t, tag, bad):
     e3 = wf.wf_siblings(t, nodes)
     if e3:
         bad.append(f"{tag}: C03 monitor: " + "; ".join(e3[:2]))
-    e2 = wf.wf_index(t, nodes, probe_ids=["nope"], id_of_data=None)
+    e2 = wf.wf_index(t, nodes, probe_ids=["nope"], id_of_data=id_rule)
     if e2:
         bad.append(f"{tag}: C02 monitor: " + "; ".join(e2[:2]))
 
@@ -421,7 +421,9 @@ def run_fault_case(case, res):
                 if not propagated:
                     res.count("faults_swallowed")
                 for i, t in enumerate(trees):
-                    check_wf(t, f"fault at call {k}/{N}", bad)
+                    # lookups by data object are re-checked too (the id rule of the tree must still be in force)
+                    rule = (lambda d: _objrule(None, d)) if lab == "obj" else None  # every tree of an obj cell is keyed by this rule
+                    check_wf(t, f"fault at call {k}/{N}", bad, id_rule=rule)
                     if (readonly or i > 0) and ident(t) != before[i]:
                         bad.append(f"fault at call {k}/{N}: {'read-only operation' if readonly else 'source tree'} was changed")
                 if len(bad) > 3:
